@@ -333,6 +333,67 @@ harnesses! {
         witness!(!unsafe { FAIL[0] } && unsafe { FAIL[1] }, "inner before fails, combined after still runs");
         witness!(unsafe { FAIL[0] }, "combined before fails");
     }
+    // ---- thorough tier
+    /// Four hooks: every failing position.
+    fn chain_len4_deep() [unwind 9] {
+        knobs();
+        let got = run(request_hook::before().then(H(0)).then(H(1)).then(H(2)).then(H(3)).serving(serve(handle)));
+        let mut e = Exp::new(); let mut d = unsafe { D0 };
+        let want = match model_chain(&mut e, &[0, 1, 2, 3], &mut d) { Some(x) => x, None => model_handler(&mut e, d) };
+        e.check();
+        assert!(got == want);
+        witness!(!unsafe { FAIL[0] } && !unsafe { FAIL[1] } && !unsafe { FAIL[2] } && unsafe { FAIL[3] }, "fourth hook fails");
+        witness!(!unsafe { FAIL[0] } && !unsafe { FAIL[1] } && !unsafe { FAIL[2] } && !unsafe { FAIL[3] }, "all four pass");
+    }
+    /// after(before_and_after(serve)): the outer after-hook sees what the combined hook returned,
+    /// including its before part's error.
+    fn after_wraps_combined_deep() [unwind 8] {
+        knobs();
+        let got = run(serve(handle).before_and_after(H(0)).after(H(1)));
+        let mut e = Exp::new(); let mut d = unsafe { D0 };
+        let r = match model_chain(&mut e, &[0], &mut d) {
+            Some(x) => x,
+            None => { let r = model_handler(&mut e, d); e.push(T_AFTER + 0, d, r); rewrite(0, r) }
+        };
+        e.push(T_AFTER + 1, unsafe { D0 }, r);
+        e.check();
+        assert!(got == rewrite(1, r));
+        witness!(unsafe { FAIL[0] } && unsafe { RW[1] } == 0, "combined hook's before error reaches the caller through the outer after-hook");
+        witness!(!unsafe { FAIL[0] } && unsafe { RW[0] } == 1 && unsafe { RW[1] } == 2, "both after parts rewrite");
+    }
+    /// before_and_after(after(serve)).
+    fn combined_wraps_after_deep() [unwind 8] {
+        knobs();
+        let got = run(serve(handle).after(H(1)).before_and_after(H(0)));
+        let mut e = Exp::new(); let mut d = unsafe { D0 };
+        let want = match model_chain(&mut e, &[0], &mut d) {
+            Some(x) => x,
+            None => { let r = model_handler(&mut e, d); e.push(T_AFTER + 1, d, r); let r1 = rewrite(1, r); e.push(T_AFTER + 0, d, r1); rewrite(0, r1) }
+        };
+        e.check();
+        assert!(got == want);
+        witness!(unsafe { FAIL[0] }, "combined before fails: inner after-hook does not run");
+        witness!(!unsafe { FAIL[0] } && unsafe { RW[1] } == 1, "inner after rewrites, combined after sees it");
+    }
+    /// before(after(before(serve))): three levels.
+    fn triple_nest_deep() [unwind 8] {
+        knobs();
+        let got = run(serve(handle).before(H(2)).after(H(1)).before(H(0)));
+        let mut e = Exp::new(); let mut d = unsafe { D0 };
+        let want = match model_chain(&mut e, &[0], &mut d) {
+            Some(x) => x,
+            None => {
+                let d0 = d;
+                let r = match model_chain(&mut e, &[2], &mut d) { Some(x) => x, None => model_handler(&mut e, d) };
+                e.push(T_AFTER + 1, d0, r);
+                rewrite(1, r)
+            }
+        };
+        e.check();
+        assert!(got == want);
+        witness!(!unsafe { FAIL[0] } && unsafe { FAIL[2] }, "innermost before fails, middle after sees it");
+        witness!(unsafe { FAIL[0] }, "outermost before fails");
+    }
     fn before_wraps_combined() [unwind 8] {
         knobs();
         let got = run(serve(handle).before_and_after(H(1)).before(H(0)));
